@@ -22,12 +22,13 @@ var lgDenoms = []string{"ujkl", "uusd"}
 var lgClasses = []string{"users", "pol", "gauges", "stor", "collm", "rns", "mint", "other"}
 
 type lgSnap struct {
-	mintTo [3]*big.Int // ujkl held by the three recipients of the emission: stakers (fee collector + distribution), dev grants, stipend
-	ratios [3]int64    // their configured percentages when the snapshot was taken
-	bal    map[string]map[string]*big.Int
-	bids   map[string]*big.Int
-	coll   *big.Int
-	supply map[string]*big.Int
+	mintTo   [3]*big.Int // ujkl held by the three recipients of the emission: stakers (fee collector + distribution), dev grants, stipend
+	ratios   [3]int64    // their configured percentages when the snapshot was taken
+	sameAcct bool        // the stipend parameter names the dev-grants account
+	bal      map[string]map[string]*big.Int
+	bids     map[string]*big.Int
+	coll     *big.Int
+	supply   map[string]*big.Int
 }
 
 func (f *chainFam) lgClassOf(addr string) string {
@@ -120,6 +121,9 @@ func (f *chainFam) lgTake() *lgSnap {
 	}
 	if st, err := sdk.AccAddressFromBech32(mp.StorageStipendAddress); err == nil {
 		s.mintTo[2] = bal(st)
+		if dev, err := mkeeper.GetDevGrantsAccount(); err == nil && dev.Equals(st) {
+			s.sameAcct = true // one account receives both the dev-grants and the stipend share
+		}
 	}
 	return s
 }
@@ -218,7 +222,7 @@ func (f *chainFam) lgProject(s *lgSnap) M {
 	}
 	// how the emission of this step (supply growth, if any) was split, against floor(emission * percentage / 100) computed
 	// with big integers (emissions may be anywhere in the int64 range): residual per recipient, and what the mint module kept
-	split := M{"rs": int64(0), "rd": int64(0), "rp": int64(0), "rem": int64(0)}
+	split := M{"rs": int64(0), "rd": int64(0), "rp": int64(0), "rem": int64(0), "collres": int64(0)}
 	if f.lgPrev != nil {
 		e := new(big.Int).Sub(s.supply["ujkl"], f.lgPrev.supply["ujkl"])
 		small := func(x *big.Int) int64 {
@@ -230,15 +234,31 @@ func (f *chainFam) lgProject(s *lgSnap) M {
 			}
 			return x.Int64()
 		}
+		wants := [3]*big.Int{}
+		for i := range wants {
+			wants[i] = new(big.Int).Mul(e, big.NewInt(f.lgPrev.ratios[i]))
+			wants[i].Quo(wants[i], big.NewInt(100))
+		}
 		for i, k := range []string{"rs", "rd", "rp"} {
-			want := new(big.Int).Mul(e, big.NewInt(f.lgPrev.ratios[i]))
-			want.Quo(want, big.NewInt(100))
+			want := wants[i]
+			if f.lgPrev.sameAcct && i >= 1 { // both shares land in the same account
+				want = new(big.Int).Add(wants[1], wants[2])
+			}
 			got := new(big.Int).Sub(s.mintTo[i], f.lgPrev.mintTo[i])
 			split[k] = small(got.Sub(got, want))
 		}
 		split["rem"] = small(new(big.Int).Sub(s.bal["mint"]["ujkl"], f.lgPrev.bal["mint"]["ujkl"]))
 	}
 	f.lgPrev = s
+	// collateral account balance minus the sum of the collateral records, with big integers (prices above 2^31 too): 0 expected
+	cres := new(big.Int).Sub(s.bal["collm"]["ujkl"], s.coll)
+	collres := int64(1_000_000_000)
+	if cres.IsInt64() && cres.Int64() < 1_000_000_000 && cres.Int64() > -1_000_000_000 {
+		collres = cres.Int64()
+	} else if cres.Sign() < 0 {
+		collres = -1_000_000_000
+	}
+	split["collres"] = collres
 	out := M{"bal": bal, "bids": bids, "coll": num(s.coll), "supply": sup, "auth": auth, "plans": plans, "split": split, "files": fileBad}
 	if !fits || f.lgBig {
 		f.lgBig = true
